@@ -451,7 +451,13 @@ impl Session {
 	fn client_secret(&self, n: u32) -> SecretKey {
 		let secp_inst = static_secp_instance();
 		let secp = secp_inst.lock();
-		SecretKey::from_slice(&secp, &h32(b"c13-ecdh", n as u64)).unwrap()
+		// The client keeps or changes its ECDH key pair from one handshake to the next: handshakes 1 and 2
+		// use the same pair (a client that re-negotiates without drawing a new pair, as the repository's own
+		// tests do), handshake 3 a new one, every later one the first again. The negotiated key must be a new
+		// one each time all the same, or the superseded key would still be accepted.
+		// (n counts from 1: the handshake that makes generation n)
+		let idx = [0u64, 0, 0, 1, 0][std::cmp::min(n, 4) as usize];
+		SecretKey::from_slice(&secp, &h32(b"c13-ecdh", idx)).unwrap()
 	}
 
 	fn client_pub_hex(&self, n: u32) -> String {
